@@ -102,7 +102,7 @@ func (rt *vRT) RoundTrip(req *http.Request) (*http.Response, error) {
 	rt.mu.Lock()
 	i := len(rt.bodies)
 	rt.bodies = append(rt.bodies, b)
-	rt.encs = append(rt.encs, req.Header.Get("Content-Encoding")+"/"+req.Header.Get("Content-Type")+"/"+req.Method)
+	rt.encs = append(rt.encs, req.Header.Get("Content-Encoding")+"/"+req.Header.Get("Content-Type")+"/"+req.Method+"/"+strconv.FormatInt(req.ContentLength, 10))
 	rt.arrive = append(rt.arrive, now)
 	rt.mu.Unlock()
 	if rt.hook != nil {
@@ -340,9 +340,11 @@ func vUp(out *vOut, gen, to, path string, gz, enabled bool, msel, cancelMode str
 		if !bytes.Equal(b, rt.bodies[0]) {
 			same = 0
 		}
-		wantEnc := "/application/x-protobuf/POST"
+		// framing (Model.newRequest / request_framing): Content-Encoding iff gzip; ContentLength = len(payload) without
+		// compression, -1 ("not used") with it
+		wantEnc := "/application/x-protobuf/POST/" + strconv.Itoa(len(want))
 		if gz {
-			wantEnc = "gzip" + wantEnc
+			wantEnc = "gzip/application/x-protobuf/POST/-1"
 		}
 		if rt.encs[i] != wantEnc {
 			same = 0
